@@ -188,6 +188,7 @@ def expectation(program, R, comp):
   program = ref.expand_functors(program)
   by = {p['name']: p for p in program['preds']}
   inexact = set()    # predicates whose value is only bounded
+  nonmono = ref.nonmonotone(program['preds'])
   unbounded_ok = {}
   comps, graph = ref.sccs(program['preds'])
   status = {}
@@ -204,7 +205,10 @@ def expectation(program, R, comp):
     else:
       mine = 'exact'
     for n in c:
-      if mine == 'between' and by[n]['kind'] == 'agg':
+      if mine == 'between' and (set(c) | ups) & nonmono:
+        # containment between T^(d+1) and the least fixpoint is stated for monotone programs only
+        status[n] = 'skip'
+      elif mine == 'between' and by[n]['kind'] == 'agg':
         status[n] = 'skip'
       elif mine == 'between' and any(status.get(q) == 'skip' for q in ups):
         status[n] = 'skip'
@@ -480,6 +484,10 @@ def run_batch(seed, batch, tier, scratch):
       S.probes['explicit_iterative'] += 1
     if 'iterative' in styles:
       S.probes['iterative_plan_executed'] += 1
+    if case['program'].get('functors'):
+      S.probes['functor_copy_of_recursive_predicate'] += 1
+    if ref.nonmonotone(case['program']['preds']):
+      S.probes['recursion_through_negation'] += 1
     S.sim_time += info['statements']
     if info['offbyone']:
       S.nontrivial.add(core.digest64([case['program'], case['requested'], case['schedule'], case['faults']]))
@@ -502,10 +510,12 @@ def run_batch(seed, batch, tier, scratch):
 
 def evidence_meta(tier):
   return {
-      'rule': ('Seeded recursive programs from ten families (counter, reachability, transitive closure '
-               'linear/doubling, two-cycle, three-cycle that cannot be cut at one predicate, Min= shortest '
-               'path, bag-valued path counting, recursion through a helper, random monotone programs over '
-               'a finite domain) x depth in {1..5, 8 default, 19, 20, 21, 22, 23, 30, 41} with data sized '
+      'rule': ('Seeded recursive programs from sixteen families (counter, reachability, transitive closure '
+               'linear/doubling, two-cycle, three-cycle that cannot be cut at one predicate, pure rings of 2-4 members, '
+               'a member recursive through itself beside a mutual one, Min= shortest path plain and weighted, += walk counting, '
+               'bag-valued path counting, recursion through a helper, random monotone programs over '
+               'a finite domain, the win-move game through negation in two shapes), optionally a second recursive component, a functor copy '
+               '`M2 := M(E: ETwo)` of a (usually recursive) predicate, @Ground on members) x depth in {1..5, 8 default, 19, 20, 21, 22, 23, 30, 41} with data sized '
                'around the depth x requested-predicate subsets x database kind (in-memory / file) x '
                'execution schedule (fresh, file holding the tables of an earlier version/depth, run '
                'aborted/interrupted/disk-full/locked at a seeded statement then re-run). A run is one case '
@@ -520,10 +530,11 @@ def evidence_meta(tier):
           'stub': ['sqlite3_logica.SqliteConnect -> fault-injecting, observing proxy around the real connection'],
           'not_run': ['diamond mode and stop signals (DuckDB only)', 'logica.py script path for iterative plans (returns the ignition prefix; documented TODO, not an observation point of C03)']},
       'expected_probes': ['run_started_on_stale_generation_tables', 'iterative_plan_executed',
-                          'several_predicates_requested', 'off_by_one_would_be_visible', 'explicit_iterative'],
+                          'several_predicates_requested', 'off_by_one_would_be_visible', 'explicit_iterative', 'functor_copy_of_recursive_predicate', 'recursion_through_negation'],
       'assumptions': [
           'reference evaluator (lsim/ref.py) reads docs/learn/logica.md "Recursion" as: Jacobi iteration of all members of a recursive component from empty relations',
-          'exactness is demanded for components recursive through one predicate only and for mutual recursion unfolded flat or iteratively; vertically unfolded mutual recursion and its monotone dependants are checked by containment T^(d+1) <= result <= lfp; aggregates over those are skipped (counted under oracle:skip)',
+          'exactness is demanded for components recursive through one predicate only and for mutual recursion unfolded flat or iteratively; vertically unfolded mutual recursion and its monotone dependants are checked by containment T^(d+1) <= result <= lfp; aggregates over those, and non-monotone programs (negation) in that situation, are skipped (counted under oracle:skip)',
+          'the reference gives `N := F(A: B)` its documented meaning by explicit copying (ref.expand_functors): N is F with every predicate F depends on, and that depends on A, replaced by a copy reading B',
           'cases whose SQL exceeds a VM-step budget are discarded and counted (SQLite re-evaluates CTEs per reference; performance is outside the property)',
           'crashes are modelled at statement boundaries plus real SQLite statement rollback; no torn pages',
       ],
